@@ -16,7 +16,11 @@ Audit families (pair sweep style, enumerated in main): a seed on which the clean
 remove faces / vertices; mutators outside the TLC classes (XMUT: singular and negative-scale matrices,
 empty / int32 / list masks, repair functions, units, oriented box, non-finite data, reassignments that
 change the element counts); two library mutators in a row in both orders; copies as reads (q:copy);
-reads left out of the introspected key list (EXTRA_KEYS).
+reads left out of the introspected key list (EXTRA_KEYS); every in-place edit route of the tracked
+arrays (EDIT_OPS: augmented assignments incl. @=, put, sort, column assignment; also used when the
+class-level histories are instantiated); a two-body seed whose inside-out body lies beyond the rows the
+face_normals setter cross-checks (sphere_box); copy isolation (a copy taken with the cache, then one of
+the two edited in place and the other one read: Edit(x) of the specification changes obj[x] only).
 """
 import copy as pycopy
 import inspect
@@ -32,6 +36,9 @@ from harness.common import (MachineryError, Verdict, import_trimesh, pmap, seed,
                             tier_from_args)
 
 PROP = "C01"
+# the thorough tier keeps its worker pool at 8 processes: the workers of a 16-process pool grew to ~2.4 GB each
+# over the 60 000 histories and the run was killed for memory (DESIGN.md 0.5)
+NPROC_T = 8
 
 SKIP_KEYS = {"visual", "mutable", "units", "source", "faces", "vertices", "smooth_shaded",
              "bounding_primitive", "bounding_cylinder", "bounding_box_oriented", "bounding_sphere",
@@ -86,7 +93,21 @@ def seeds(trimesh):
                     [[4, 6, 5], [4, 5, 7], [5, 6, 7], [6, 7, 4]],
                     [[1, 3, 0]], [[4, 4, 5]]])
     out["dirty"] = (dv, df, {})
+    # two closed bodies, the second one (a box) wound inside out and placed after the 80 faces of the first: what the
+    # repairs re-wind lies beyond the rows the face_normals setter cross-checks (used by the audit families only)
+    sp = trimesh.creation.icosphere(subdivisions=1, radius=2.0)
+    bx = trimesh.creation.box(extents=[1.0, 2.0, 1.5])
+    out["sphere_box"] = (np.vstack([np.array(sp.vertices), np.array(bx.vertices) + [6.0, 0.5, 0.25]]),
+                         np.vstack([np.array(sp.faces), np.fliplr(np.array(bx.faces)) + len(sp.vertices)]), {})
     return out
+
+
+AUDIT_ONLY_SEEDS = {"sphere_box"}
+
+
+def rotation_seeds(sd):
+    """seed names the general families rotate over"""
+    return [n for n in sorted(sd) if n not in AUDIT_ONLY_SEEDS]
 
 
 def build(trimesh, spec):
@@ -306,6 +327,92 @@ def _edit_ufunc(m):
     v[1:] = v[1:] + 0.5
 
 
+# in-place edit routes of the tracked arrays: every augmented assignment and mutating method the arrays
+# promise to notice (the routes that are open findings of C02 - C-level writes, views held across a hash
+# read, base-class views - are not used).  Each keeps the mesh a mesh and really changes the data.
+_ML = np.array([[0.0, -2.0, 0.0], [1.0, 0.0, 0.0], [0.0, 0.5, 1.5]])
+
+
+def _op_iadd(m):
+    m.vertices += [0.5, -0.25, 1.0]
+
+
+def _op_isub(m):
+    v = m.vertices
+    v -= [1.0, 2.0, 0.5]
+
+
+def _op_imul(m):
+    m.vertices *= [1.0, 2.0, 0.5]
+
+
+def _op_itruediv(m):
+    v = m.vertices
+    v /= [2.0, 1.0, 4.0]
+
+
+def _op_imatmul(m):
+    m.vertices @= _ML
+
+
+def _op_imatmul_handle(m):
+    v = m.vertices
+    v @= _ML.T
+
+
+def _op_ipow(m):
+    m.vertices **= 3
+
+
+def _op_ifloordiv(m):
+    m.vertices //= 0.75
+
+
+def _op_imod(m):
+    v = m.vertices
+    v %= 1.75
+
+
+def _op_put(m):
+    m.vertices.put([0, 1, 2], [0.25, -0.5, 0.75])
+
+
+def _op_setitem_column(m):
+    m.vertices[:, 2] = m.vertices[:, 2] * 3.0 + 1.0
+
+
+def _op_sort_vertices(m):
+    m.vertices.sort(axis=0)
+
+
+def _op_faces_sort(m):
+    m.faces.sort(axis=1)
+
+
+def _op_faces_ixor(m):
+    # swaps vertex 2k with 2k+1 in every face (needs an even number of vertices)
+    if len(m.vertices) % 2:
+        m.faces[:, 0], m.faces[:, 1] = np.array(m.faces[:, 1]), np.array(m.faces[:, 0])
+    else:
+        m.faces ^= 1
+
+
+def _op_faces_setitem(m):
+    m.faces[:, [1, 2]] = m.faces[:, [2, 1]]
+
+
+def _op_faces_iadd(m):
+    # every face moves on to the next vertices; the last vertex index wraps through the modulus
+    f = m.faces
+    f += 1
+    f %= len(m.vertices)
+
+
+EDIT_OPS = {f.__name__[4:]: f for f in (_op_iadd, _op_isub, _op_imul, _op_itruediv, _op_imatmul, _op_imatmul_handle, _op_ipow,
+                                        _op_ifloordiv, _op_imod, _op_put, _op_setitem_column, _op_sort_vertices, _op_faces_sort,
+                                        _op_faces_ixor, _op_faces_setitem, _op_faces_iadd)}
+
+
 _t = 5e-7  # rotation below the "has rotation" shortcut of apply_transform but above its identity shortcut
 RTINY = np.array([[np.cos(_t), -np.sin(_t), 0], [np.sin(_t), np.cos(_t), 0], [0, 0, 1]])
 
@@ -348,6 +455,10 @@ MUTATORS = {
     "center_mass": [lambda m: setattr(m, "center_mass", [0.5, 0.5, 0.25]), lambda m: setattr(m, "center_mass", [0.0, 1.0, 0.0])],
 }
 EDITS = [_edit_vertex, _edit_scale, _edit_faces, _reassign_v, _reassign_f, _edit_ufunc]
+# the routes the class-level histories of TLC are instantiated with
+ALL_EDITS = EDITS + [EDIT_OPS[k] for k in sorted(EDIT_OPS)]
+# edits that keep the buffer of the array they change (for the copy isolation family)
+INPLACE_EDITS = [_edit_vertex, _edit_scale, _op_imatmul, _op_put, _edit_faces, _op_isub]
 
 # (class, variant) of the near-identity rotation: attribution of NearIdentityRotationKeepsNormals
 TINY_STEP = "rigid[4]"
@@ -445,6 +556,15 @@ def run_op(m, mu, vi):
         m = pycopy.copy(m) if vi else m.copy(include_cache=True)
     elif mu.startswith("x:"):
         XMUT[mu[2:]](m)
+    elif mu == "editop":
+        EDIT_OPS[vi](m)
+    elif mu == "copyiso":
+        # a copy taken with the cache; one of the two is then edited in place and the OTHER one is read
+        route, e, direction = vi
+        c = pycopy.copy(m) if route else m.copy(include_cache=True)
+        src, dst = (m, c) if direction == 0 else (c, m)
+        INPLACE_EDITS[e](src)
+        return dst
     elif mu == "double":
         a, ai, mid, b, bi = vi
         MUTATORS[a][ai](m)
@@ -652,7 +772,7 @@ def replay_history(trimesh, h, seedspec, classes, allkeys, variant, sweep_keys):
             o = objs.get(st["o"])
             if o is None:
                 return None, steps
-            f = EDITS[(variant + j) % len(EDITS)]
+            f = ALL_EDITS[(variant + j) % len(ALL_EDITS)]
             steps.append("edit %s.%s" % (st["o"], f.__name__))
             try:
                 f(o)
@@ -697,7 +817,7 @@ def replay_history(trimesh, h, seedspec, classes, allkeys, variant, sweep_keys):
 def _replay_chunk(args):
     trimesh = import_trimesh()
     sd = seeds(trimesh)
-    names = sorted(sd)
+    names = rotation_seeds(sd)
     out = []
     nread = 0
     for idx, h, classes, allkeys, nvar, sweep in args:
@@ -748,14 +868,16 @@ def _pair_chunk(args):
             if not raises_on_fresh(trimesh, snap, lambda g: run_op(g, mu, vi)):
                 out.append({"seed_mesh": sname, "steps": steps, "mismatch": raise_detail(e)})
             continue
-        if mu.startswith("x:") or sname == "dirty" or mu == "double":
+        if mu.startswith("x:") or sname in ("dirty", "sphere_box") or mu in ("double", "editop", "copyiso"):
             # what the operation really did to the arrays (coverage guards in main)
             v0, f0 = snap[0], snap[1]
             nv, nf = len(m.vertices), len(m.faces)
             tags = ["nf0" if nf == 0 else "nf+" if nf > len(f0) else "nf-" if nf < len(f0) else
                     "faces" if not np.array_equal(np.asarray(m.faces), f0) else "same",
                     "nv+" if nv > len(v0) else "nv-" if nv < len(v0) else "nv="] + (["acted"] if m.__dict__.get("_c01_acted") else [])
-            effects.append((mu if mu.startswith("x:") else label, sname, tags))
+            if nv == len(v0) and not np.array_equal(np.asarray(m.vertices), v0, equal_nan=True):
+                tags.append("moved")
+            effects.append((mu if mu.startswith("x:") else sname + ":" + label if sname == "sphere_box" else label, sname, tags))
         if len(m.faces) == 0 and mu.startswith("x:"):
             # an emptied mesh: nothing a fresh mesh could report differently except its emptiness
             n += 1
@@ -923,12 +1045,12 @@ def main(argv):
     sweep = 6 if tier == "quick" else 20
     work = [(i, h, classes, keys, 1 if tier == "quick" else 2, sweep) for i, h in enumerate(hists)]
     t0 = time.time()
-    res = pmap(_replay_chunk, work, chunk=40)
+    res = pmap(_replay_chunk, work, chunk=40, nproc=NPROC_T if tier == "thorough" else None)
     nread = sum(x[1] for x in res)
     nrep = sum(x[2] for x in res)
     fails = [f for x in res for f in x[0]]
     # exhaustive pair sweep: (key before | none | all) x every concrete mutator x all keys after
-    sd_names = ["box_over", "strip_dup"] if tier == "quick" else sorted(seeds(trimesh))
+    sd_names = ["box_over", "strip_dup"] if tier == "quick" else rotation_seeds(seeds(trimesh))
     pair_work = []
     befores = [None, "*"] + (kept_keys + ["area", "volume", "bounds", "triangles", "face_adjacency_angles", "mass_properties", "convex_hull", "q:ray_hits", "q:nearest", "q:contains"]
                              if tier == "quick" else keys)
@@ -963,7 +1085,7 @@ def main(argv):
                 pair_work.append(("dirty", k1, mu, vi, keys if k1 == "*" else short_post))
     # (b) mutators outside the TLC classes: degenerate matrices and masks, other entry points reaching the
     #     same code (repair functions, units, oriented box), non-finite data, reassignments that change counts
-    xseeds = ["box_over", "strip_dup", "dirty"] if tier == "quick" else sorted(seeds(trimesh))
+    xseeds = ["box_over", "strip_dup", "dirty"] if tier == "quick" else rotation_seeds(seeds(trimesh))
     for sname in xseeds:
         for xm in sorted(XMUT):
             for k1 in ["*", "face_normals", "vertex_normals", "face_adjacency", "edges_unique", "q:copy"] + (kept_keys if tier == "thorough" else []):
@@ -973,15 +1095,43 @@ def main(argv):
     dseeds = ["box_over", "strip_dup", "dirty"]
     for ai, a in enumerate(dmut):
         for bi, b in enumerate(dmut):
-            for rep in range(2 if tier == "quick" else 6):
+            for rep in range(1 if tier == "quick" else 6):
                 r = ai * 5 + bi * 3 + rep * 7 + seed()
                 mid = [[], ["face_normals", "vertex_normals", "edges_unique"]][(ai + bi + rep) % 2]
                 pair_work.append((dseeds[r % 3], "*", "double", (a, r % len(MUTATORS[a]), mid, b, (r // 2) % len(MUTATORS[b])), short_post))
     if "two_tets" not in xseeds:
         for k1 in ["*", "face_normals", "q:copy"]:
             pair_work.append(("two_tets", k1, "x:fix_inversion", 0, short_post))
+    # (d) every in-place edit route of the tracked arrays (augmented assignments, mutating methods)
+    for sname in ["box_over", "strip_dup"] + (["dirty", "two_tets"] if tier == "thorough" else []):
+        for eo in sorted(EDIT_OPS):
+            for k1 in ["*", "face_normals", "bounds"] + (kept_keys if tier == "thorough" else []):
+                pair_work.append((sname, k1, "editop", eo, keys if k1 == "*" else short_post + ["triangles", "kdtree", "q:nearest"]))
+    # (e) bodies that the repairs re-wind beyond the first rows of the face array
+    for mu in ("repair", "process", "invert", "faces_mask") + (("mirror", "merge", "verts_mask") if tier == "thorough" else ()):
+        for vi in range(len(MUTATORS[mu])):
+            for k1 in ["*", "face_normals", "vertex_normals", "face_adjacency", "q:copy"] + (kept_keys if tier == "thorough" else []):
+                pair_work.append(("sphere_box", k1, mu, vi, keys if k1 == "*" else short_post + ["q:signed_distance"]))
+    for xm in ("fix_winding", "fix_inversion"):
+        for k1 in ["*", "face_normals", "vertex_normals"]:
+            pair_work.append(("sphere_box", k1, "x:" + xm, 0, short_post + ["q:signed_distance"]))
+    # (f) a copy taken with the cache stays a function of its own arrays (and so does the original): one of the
+    #     two is edited in place, the other one is read; before the copy everything / one structure-valued key is read
+    holders = ["kdtree", "triangles_tree", "vertex_adjacency_graph", "faces_sparse", "convex_hull"] + (
+        ["edges_sorted_tree", "face_adjacency_tree", "face_adjacency_edges_tree", "bounding_box_oriented"] if tier == "thorough" else [])
+    n_iso = 0
+    for sname in ["box_over", "strip_dup"] + (["ico_holes", "dirty"] if tier == "thorough" else []):
+        for route in (0, 1):
+            for e in range(len(INPLACE_EDITS)):
+                for direction in (0, 1):
+                    if tier == "quick" and (e + route + direction) % 2 and e >= 4:
+                        continue
+                    for k1 in ["*"] + holders:
+                        n_iso += 1
+                        pair_work.append((sname, k1, "copyiso", (route, e, direction),
+                                          (keys + EXTRA_KEYS, keys + EXTRA_KEYS) if k1 == "*" else [k1, "bounds", "area", "q:nearest_vertex", "q:nearest"]))
     n_audit = len(pair_work) - n_base
-    res2 = pmap(_pair_chunk, pair_work, chunk=8)
+    res2 = pmap(_pair_chunk, pair_work, chunk=8, nproc=NPROC_T if tier == "thorough" else None)
     fails += [f for x in res2 for f in x[0]]
     nread += sum(x[1] for x in res2)
     npair = sum(x[2] for x in res2)
@@ -995,12 +1145,23 @@ def main(argv):
         if want not in got:
             raise MachineryError("audit family: %s never had the effect %s (%s)" % (xm, want, sorted(got)))
     n_x = sum(1 for name in eff if name.startswith("x:"))
-    dirty_eff = {name: tags for name, tags in eff.items() if not name.startswith("x:") and not name.startswith("double")}
+    dirty_eff = {name: tags for name, tags in eff.items() if name.split("[")[0] in MUTATORS}
     dirty_real = sorted(name for name, tags in dirty_eff.items() if tags & {"nf-", "nf+", "nv-", "nv+", "faces"})
     n_double = sum(1 for name in eff if name.startswith("double"))
-    if n_x < len(XMUT) - 2 or len(dirty_real) < 10 or n_double < (len(dmut) ** 2) * 3 // 2:
+    if n_x < len(XMUT) - 2 or len(dirty_real) < 10 or n_double < (len(dmut) ** 2) * 3 // 4:
         raise MachineryError("audit families came out nearly empty: extra mutators %d, effective cleaning mutators %d, double %d" %
                              (n_x, len(dirty_real), n_double))
+    edit_real = sorted(name[7:-1] for name, tags in eff.items() if name.startswith("editop[") and tags & {"moved", "faces"})
+    if len(edit_real) < len(EDIT_OPS):
+        raise MachineryError("edit routes that never changed the data: %s" % sorted(set(EDIT_OPS) - set(edit_real)))
+    big = {name: tags for name, tags in eff.items() if name.startswith("sphere_box:")}
+    big_rewound = sorted(name for name, tags in big.items() if "faces" in tags or "acted" in tags)
+    n_iso_run = sum(1 for name, tags in eff.items() if name.startswith("copyiso["))
+    if len(big_rewound) < 4 or n_iso_run < 8:
+        raise MachineryError("audit families came out nearly empty: re-winding repairs on the two-body seed %s, copy isolation %d" %
+                             (big_rewound, n_iso_run))
+    cov["audit_families_2"] = {"edit_routes": edit_real, "rewinding_mutators_on_sphere_box": big_rewound,
+                               "copy_isolation_histories": n_iso, "copy_isolation_variants": n_iso_run}
     cov["audit_families"] = {"histories": n_audit, "extra_mutators_run": n_x, "cleaning_mutators_effective_on_dirty_seed": dirty_real,
                              "double_mutator_histories": n_double, "extra_read_keys": EXTRA_KEYS}
     for f in fails:
@@ -1019,9 +1180,10 @@ def main(argv):
     # "which values were read before a mutation never changes what is read after it": the arrays a
     # mutator leaves behind must not depend on what had been read (and therefore cached) before
     sdm = seeds(trimesh)
-    indep_work = [(sname, mu, vi, keys) for sname in sorted(sdm) for mu in mutators for vi in range(len(MUTATORS[mu]))]
-    indep_work += [(sname, "x:" + xm, 0, keys) for sname in sorted(sdm) for xm in sorted(XMUT)]
-    res3 = pmap(_indep_chunk, indep_work, chunk=6)
+    indep_work = [(sname, mu, vi, keys) for sname in rotation_seeds(sdm) for mu in mutators for vi in range(len(MUTATORS[mu]))]
+    indep_work += [(sname, "x:" + xm, 0, keys) for sname in rotation_seeds(sdm) for xm in sorted(XMUT)]
+    indep_work += [("sphere_box", mu, vi, keys) for mu in ("repair", "process", "invert") for vi in range(len(MUTATORS[mu]))]
+    res3 = pmap(_indep_chunk, indep_work, chunk=6, nproc=NPROC_T if tier == "thorough" else None)
     n_indep = sum(x[1] for x in res3)
     for x in res3:
         for sname, mu, vi, sa, sb in x[0]:
@@ -1034,7 +1196,7 @@ def main(argv):
         "traces_validated_against_impl": nrep + npair,
         "value_comparisons": nread,
         "keys": len(keys), "mutator_classes": len(mutators),
-        "concrete_mutators": sum(len(v) for v in MUTATORS.values()) + len(EDITS) + len(XMUT),
+        "concrete_mutators": sum(len(v) for v in MUTATORS.values()) + len(EDITS) + len(XMUT) + len(EDIT_OPS),
         "pair_histories": npair, "tlc_histories_replayed": nrep,
         "replay_wall_s": round(time.time() - t0, 1),
         "samples": [hists[len(hists) // 3], hists[-1], {"pair": list(map(str, pair_work[len(pair_work) // 2][:4]))}],
